@@ -5,7 +5,8 @@ import random
 from common import lean_obligations, build_harness
 import lrfamily as lf
 import treeparse as tp
-from gram import random_grammar
+import tablecorr
+from gram import random_grammar, Gram
 
 LEVEL = "proof"
 PROP_MODULE = "Rustemo.Props.C04"
@@ -40,6 +41,14 @@ def gen(rng, tier):
             if g.undefined_symbols() or not g.all_productive():
                 continue
             texts.append(g.render())
+    # corr:table only: grammars with a nonterminal that derives nothing (`check_empty_sets` must name the same symbol)
+    for _ in range(6 if tier == "quick" else 60):
+        g = random_grammar(rng, p_empty=0.2, max_nts=3)
+        if g.undefined_symbols() or not g.all_productive() or any(rhs == [l] for l, rhs in g.prods) or not g.terms:
+            continue
+        loop = rng.choice(["Z: Z Ta;", "Z: Ta Z | Z Y;\nY: Z Ta;", "Z: Y Ta;\nY: Z Ta | Y Z;", "Y: Z Ta | Y Z;\nZ: Y Ta;"]).replace("Ta", next(iter(g.terms)))
+        first = g.nts[rng.randrange(len(g.nts))]
+        texts.append(g.render().replace(first + ":", first + ": Z Z |", 1).replace("terminals\n", loop + "\nterminals\n", 1))
     for text in texts:
         for tt in ("LALR", "LALR_PAGER", "LALR_RN"):
             # GLR algorithm: cells keep every candidate (no prefer-shift); table type overridden explicitly
@@ -50,7 +59,7 @@ def gen(rng, tier):
 
 def extra(c):
     rn = "1" if c.settings[1] == "LALR_RN" else "0"
-    return [f"cover 0 0 {rn}"]
+    return [f"cover 0 0 {rn}", tablecorr.REQUEST]
 
 
 def run(rep, tier, seed):
@@ -72,16 +81,22 @@ def check(rep, cases, proofs_ok):
                        "other behind a shared terminal, bare and in deeper contexts; diamond; layered) "
                        "grammars x table types {LALR, LALR_PAGER, LALR_RN}, compiled with the GLR algorithm so that cells keep every "
                        "candidate; per table the comparison with the Lean-built canonical LR(1) automaton is complete over all "
-                       "states, items, lookaheads and cells; distinct = (grammar, table type)")
+                       "states, items, lookaheads and cells; distinct = (grammar, table type). corr:table: every real table is also "
+                       "compared as a whole (FIRST sets, state numbering, item order, lookaheads, cells, gotos, sorted terminals, "
+                       "max priorities, conflict count) with the Lean model of LRTable::new (Table.build); a few grammars with a "
+                       "nonterminal deriving nothing check the 'First set empty' rejection the same way")
     failures = []
     n = 0
     lr1_not_lalr = 0
+    tie = tablecorr.TableTie()
+    tablecorr.rejected_outcomes(rep, tie, cases, lambda c: c.text, lambda c: c.settings, lambda c: c.dump_ans)
     for c in cases:
         if c.dump is None:
             rep.count("grammar_rejected:" + " ".join(c.dump_ans.split(" ")[1:3]))
             continue
         n += 1
         ans = c.extra[0]
+        tie.judge(rep, c, c.extra[1] if len(c.extra) > 1 else "driver-crash")
         rep.count("cover_" + ans.split(" ")[0] + ":" + c.settings[1])
         d = tp.parse_dump(c.dump)
         rep.count("tables_with_conflict_cells" if d["conflicts"] else "tables_conflict_free")
@@ -118,7 +133,9 @@ def check(rep, cases, proofs_ok):
         rep.violation(dict(c.describe(), why="Cover.check fails on the compiler's table: " + ans, kind="impl!=oracle",
                            note="the replay input is the grammar itself: the named state/item/lookahead of the dumped table "
                                 "differs from the canonical LR(1) automaton"))
-    if not failures and not proofs_ok:
+    # Tie A for the construction: whole table vs the Lean model `Table.build` (kind impl!=model, replay = the grammar)
+    n_table = tie.report(rep, lambda c: c.describe(), min(3, len(failures)))
+    if not failures and not n_table and not proofs_ok:
         rep.violation({"why": f"Lean obligations of {PROP_MODULE} no longer check",
                        "obligations": [o for o in rep.obligations if not o[1]]}, no_input=True)
     rep.counters["oracle_failures"] = len(failures)
